@@ -322,7 +322,7 @@ func init() {
 	checks["C18"] = func(prop, tier string) int {
 		t0 := time.Now()
 		rep := common.NewReport(prop)
-		secs := 100
+		secs := 300
 		if tier == "thorough" {
 			secs = 1200
 		}
